@@ -81,7 +81,7 @@ def run(ctx) -> None:
     r14_5(ctx)
     r14_6(ctx)
     ctx.floor("registration_sites", 3)
-    ctx.floor("unwind_scenarios", 170)
+    ctx.floor("unwind_scenarios", 312)
 
 
 # --------------------------------------------------------------------------- R14.1
@@ -159,7 +159,7 @@ class _UnwindOps:
             return len(self._get(env, v)) > 0
         if isinstance(v, str) and v.startswith("E"):
             return True
-        if isinstance(v, tuple) and v and v[0] in ("type", "tb"):
+        if isinstance(v, tuple) and v and v[0] in ("type", "tb", "AW"):
             return True
         return UNKNOWN
 
@@ -210,30 +210,65 @@ class _UnwindOps:
             return ("type", args[0])
         if func == "bool" and len(args) == 1 and not kwargs:
             return self.truth(args[0], env) if not isinstance(args[0], bool) and args[0] is not None else bool(args[0])
-        fv = env.get(func, None) if func.isidentifier() else None
+        fv = self._callee(node, env)
         if isinstance(fv, str) and fv.startswith("CB"):
+            # calling a registered exit gives its awaitable; what awaiting it does is the scenario's outcome
             env["@trace"] = env["@trace"] + ((fv, tuple(args)),)
-            o = self.scenario[fv]
-            return True if o == "T" else False
+            return ("AW", fv, tuple(args))
         return UNKNOWN
 
+    def _callee(self, node, env):
+        """the value of a call's function expression (inner calls were evaluated at their own CFG
+        node and are read from the call cache, so looking twice has no second effect)"""
+        if isinstance(node.func, ast.Name):
+            return env.get(node.func.id)
+        if isinstance(node.func, ast.Call) and id(node.func) in env.get("@callvals", {}):
+            return env["@callvals"][id(node.func)]
+        return None
+
+    def awaited(self, v, env):
+        if isinstance(v, tuple) and v[:1] == ("AW",):
+            return self.scenario[v[1]] == "T"
+        return v
+
+    def visit(self, node, env, ev):
+        # every call is evaluated once, at its own CFG node (calls have effects: pop(), running an exit)
+        if node.kind == "call":
+            vals = dict(env.get("@callvals", {}))
+            vals.pop(id(node.ast), None)
+            env["@callvals"] = vals
+            v = ev.eval(node.ast, env)
+            vals = dict(env.get("@callvals", {}))
+            vals[id(node.ast)] = v
+            env["@callvals"] = vals
+
     def raises(self, node: Node, env):
-        if node.kind != "await":
-            return None
-        call = node.info.get("value")
-        if isinstance(call, ast.Call) and isinstance(call.func, ast.Name):
-            fv = env.get(call.func.id)
-            if isinstance(fv, str) and fv.startswith("CB") and self.scenario[fv] in ("R", "S"):
-                ev = AbsEval(self)
-                args = tuple(ev.eval(a, env) for a in call.args)
-                if self.scenario[fv] == "S":
-                    # re-raises the very exception object it was handed (nothing to re-raise: behaves like falsy)
-                    if len(args) < 2 or not (isinstance(args[1], str) and args[1].startswith("E")):
-                        return None
-                    env["@trace"] = env["@trace"] + ((fv, args),)
-                    return args[1]
+        ev = AbsEval(self)
+        if node.kind == "call":
+            # outcome C: the exit fails when it is *called* (a synchronous exit wrapped for awaiting runs then)
+            fv = self._callee(node.ast, env)
+            if isinstance(fv, str) and fv.startswith("CB") and self.scenario[fv] == "C":
+                args = tuple(ev.eval(a, env) for a in node.ast.args)
                 env["@trace"] = env["@trace"] + ((fv, args),)
                 return "E_" + fv
+            return None
+        if node.kind != "await":
+            return None
+        operand = node.info.get("value")
+        if isinstance(operand, ast.Call):
+            v = env.get("@callvals", {}).get(id(operand))
+        elif isinstance(operand, ast.Name):
+            v = env.get(operand.id)
+        else:
+            v = None
+        if isinstance(v, tuple) and v[:1] == ("AW",) and self.scenario[v[1]] in ("R", "S"):
+            fv, args = v[1], v[2]
+            if self.scenario[fv] == "S":
+                # re-raises the very exception object it was handed (nothing to re-raise: behaves like falsy)
+                if len(args) < 2 or not (isinstance(args[1], str) and args[1].startswith("E")):
+                    return None
+                return args[1]
+            return "E_" + fv
         return None
 
     def matches(self, type_ast, exc, env):
@@ -283,7 +318,7 @@ def reference(n: int, outcomes: Tuple[str, ...], received: bool):
         o = outcomes[k - 1]
         if o == "T":
             exc = None
-        elif o == "R":
+        elif o in ("R", "C"):
             exc = "E_" + cb
     return tuple(trace), exc
 
@@ -298,7 +333,7 @@ def r14_2(ctx, end: str) -> None:
     table = []
     depth = 5 if getattr(ctx, "tier", "quick") == "thorough" and not getattr(ctx, "_shared", False) else 4
     for n in range(0, depth):
-        for outcomes in itertools.product("FTRS" if n <= 3 else "FTR", repeat=n):
+        for outcomes in itertools.product("FTRSC" if n <= 3 else "FTR", repeat=n):
             for received in (False, True):
                 ctx.count("unwind_scenarios")
                 scenario = {f"CB{k + 1}": outcomes[k] for k in range(n)}
@@ -573,6 +608,76 @@ def _r14_5_closure(ctx, u, reg) -> None:
                   f"`{name}` captured by the registered closure is not re-bound in callback()")
 
 
+def _callback_factory(ctx):
+    """Third accepted form: ``callback()`` registers ``factory(<bound callback>)`` where ``factory`` is a
+    private plain function of the library that returns a coroutine function defined inside it.
+    -> (factory unit, nested coroutine unit, registering node, argument expression)"""
+    from .common import inline_locals
+    m = ctx.unit("contextlib.ExitStack.callback")
+    mcfg = cfg_of(m)
+    for r in mcfg.nodes:
+        if r.kind == "call" and not r.tag and isinstance(r.ast.func, ast.Attribute) \
+                and norm(r.ast.func.value) == f"self.{STACK_ATTR}" and len(r.ast.args) == 1:
+            e = inline_locals(ctx, m, mcfg, r, r.ast.args[0])
+            if not (isinstance(e, ast.Call) and len(e.args) == 1 and not e.keywords):
+                continue
+            for f in ctx.vals.expr(m, e.func, r):
+                t = ctx.pkg.lib_unit(f[1]) if f[0] == "libfn" else ctx.vals.find_method(f[1], f[2]) if f[0] == "bound" else None
+                if t is None or t.kind != "sync":
+                    continue
+                names = t.param_names() if (t.cls is None or t.is_static()) else t.param_names()[1:]
+                nested = [x for x in t.module.units.values() if x.parent is t and x.kind == "coroutine"]
+                rets = [x for x in own_nodes(t.node) if isinstance(x, ast.Return)]
+                if len(names) == 1 and len(nested) == 1 and len(rets) == 1 and isinstance(rets[0].value, ast.Name) \
+                        and rets[0].value.id == nested[0].node.name:
+                    return t, nested[0], r, e.args[0], names[0]
+    return None
+
+
+def _r14_5_bound_callback(ctx, m, r, inner, e) -> None:
+    """``partial(awaitify(callback), *args, **kwargs)``"""
+    cbp = m.param_names()[1]
+    va = m.node.args.vararg.arg if m.node.args.vararg else None
+    kw = m.node.args.kwarg.arg if m.node.args.kwarg else None
+    ok = False
+    if isinstance(inner, ast.Call) and ctx.pkg.resolve_expr_global(m.module, inner.func).qual in ("functools.partial",) and inner.args:
+        f = inner.args[0]
+        wrapped = isinstance(f, ast.Call) and ctx.pkg.resolve_expr_global(m.module, f.func).qual.endswith("_core.awaitify") \
+            and len(f.args) == 1 and norm(f.args[0]) == cbp
+        stars = [a for a in inner.args[1:]]
+        ok = wrapped and len(stars) == 1 and isinstance(stars[0], ast.Starred) and norm(stars[0].value) == va \
+            and len(inner.keywords) == 1 and inner.keywords[0].arg is None and norm(inner.keywords[0].value) == kw
+    ctx.check(bool(ok), "R14.5", m, r, "callback() binds *args and **kwargs unchanged to the (awaitified) callback",
+              node=r, witness=norm(e))
+
+
+def _r14_5_factory(ctx, factory, w, reg, arg, fparam) -> None:
+    from .common import inline_locals
+    from .lru import enumerate_paths
+    m = ctx.unit("contextlib.ExitStack.callback")
+    mcfg = cfg_of(m)
+    regs = [n for n in mcfg.nodes if n.kind == "call" and not n.tag and isinstance(n.ast.func, ast.Attribute)
+            and norm(n.ast.func.value) == f"self.{STACK_ATTR}" and n.ast.args]
+    ctx.check(len(regs) == 1, "R14.5", m, "callback", "callback() registers one exit")
+    cfg = cfg_of(w)
+    own = set(w.param_names()) | {x.id for x in own_nodes(w.node) if isinstance(x, ast.Name) and isinstance(x.ctx, ast.Store)}
+    for path in enumerate_paths(cfg, cfg.entry, lambda n: n is cfg.exit):
+        nodes = [n for n, _l in path]
+        awaits = [n for n in nodes if n.kind == "await"]
+        ok = len(awaits) == 1 and isinstance(awaits[0].info.get("value"), ast.Call) \
+            and norm(awaits[0].info["value"].func) == fparam and fparam not in own \
+            and not awaits[0].info["value"].args and not awaits[0].info["value"].keywords
+        ctx.check(ok, "R14.5", w, awaits[0] if awaits else w.node.name,
+                  "the stored callback is awaited exactly once (its arguments are already bound)")
+        rets = [n for n in nodes if n.kind == "return"]
+        val = rets[-1].info.get("value") if rets else None
+        ctx.check(isinstance(val, ast.Constant) and val.value is False, "R14.5", w, rets[-1] if rets else w.node.name,
+                  "a callback can never suppress: constant False is returned")
+    rebinds = [x for x in own_nodes(factory.node) if isinstance(x, ast.Name) and isinstance(x.ctx, ast.Store) and x.id == fparam]
+    ctx.check(not rebinds, "R14.5", factory, factory.node.name, f"`{fparam}` captured by the returned coroutine is not re-bound in the factory")
+    _r14_5_bound_callback(ctx, m, reg, inline_locals(ctx, m, mcfg, reg, arg), reg.ast.args[0])
+
+
 def r14_5(ctx) -> None:
     _derive_stack_attr(ctx)
     u = _callback_runner(ctx)
@@ -580,6 +685,10 @@ def r14_5(ctx) -> None:
         closure = _callback_closure(ctx)
         if closure is not None:
             _r14_5_closure(ctx, *closure)
+            return
+        fac = _callback_factory(ctx)
+        if fac is not None:
+            _r14_5_factory(ctx, *fac)
             return
     if u is None:
         ctx.fail("R14.5", ctx.unit("contextlib.ExitStack.callback"), "callback",
